@@ -31,3 +31,104 @@ pub fn tx_events(w: &World, rec: &OpRecord) -> Vec<TxObs> {
 pub fn hex(b: &[u8]) -> String {
     b.iter().map(|x| format!("{x:02x}")).collect()
 }
+
+pub mod c04;
+pub mod c05;
+
+use crate::dut::OpResult;
+use crate::world::{RespCode, Win};
+
+/// What the device visibly did with one delivered frame.
+#[derive(Clone, Debug, PartialEq, Eq)]
+pub enum Reaction {
+    /// acted on it, reporting counter n
+    Accepted(u32),
+    /// reported session expiry in direct answer to the frame (uplink counter space exhausted):
+    /// the frame was acted upon, or (oversize) it ended the procedure
+    Expired,
+    /// reported "no update" / kept going
+    Rejected,
+    /// the receive procedure ended as if it had timed out (RxComplete / NoAck)
+    EndedAsTimeout,
+    /// not observable per frame (Class C between windows) or cut short by an injected radio error
+    Unknown,
+}
+
+/// Infer the per-frame reactions of one operation from its trace.
+pub fn reactions(w: &World, rec: &OpRecord) -> Vec<Reaction> {
+    let e = w.env.borrow();
+    let mut out = Vec::new();
+    let dels = &e.delivered[rec.del_lo..rec.del_hi];
+    // Listen: results come in order of acceptance
+    let mut listen_results: Vec<OpResult> = match &rec.result {
+        OpResult::Listened(v) => v.clone(),
+        _ => vec![],
+    };
+    for d in dels {
+        let tail = &e.trace[d.at + 1..rec.trace_hi];
+        let r = match (e.cfg.frontend, d.win) {
+            (crate::script::Frontend::Nb, _) => {
+                let code = tail.iter().find_map(|ev| match ev {
+                    Ev::NbEvent { ev, code, .. } if ev.starts_with("Radio(FrameReady)") => Some(*code),
+                    _ => None,
+                });
+                match code {
+                    Some(RespCode::Downlink(n)) => Reaction::Accepted(n),
+                    Some(RespCode::SessionExpired) => Reaction::Expired,
+                    Some(RespCode::NoUpdate) => Reaction::Rejected,
+                    Some(RespCode::RxComplete) | Some(RespCode::NoAck) => Reaction::EndedAsTimeout,
+                    Some(RespCode::JoinSuccess) => Reaction::Accepted(0),
+                    _ => Reaction::Unknown,
+                }
+            }
+            (_, Win::Rx1) | (_, Win::Rx2) => {
+                let later_rx_single = tail.iter().filter(|ev| matches!(ev, Ev::RxSingle { .. })).count() > 1;
+                if later_rx_single {
+                    Reaction::Rejected
+                } else {
+                    match &rec.result {
+                        OpResult::Downlink(n) => Reaction::Accepted(*n),
+                        OpResult::JoinSuccess => Reaction::Accepted(0),
+                        // in RX2 a session expiry may just as well come from closing the procedure
+                        OpResult::SessionExpired => {
+                            if d.win == Win::Rx1 {
+                                Reaction::Expired
+                            } else {
+                                Reaction::Unknown
+                            }
+                        }
+                        OpResult::RxComplete | OpResult::NoAck | OpResult::NoJoinAccept => {
+                            if d.win == Win::Rx1 {
+                                Reaction::EndedAsTimeout
+                            } else {
+                                // in RX2 "rejected" and "ended as timeout" are the same observable
+                                Reaction::Rejected
+                            }
+                        }
+                        _ => Reaction::Unknown,
+                    }
+                }
+            }
+            (_, Win::Idle) => {
+                // a frame the reference accepts must be the next listen result
+                match &d.verdict {
+                    crate::world::Verdict::Accept { n, .. } => {
+                        if let Some(pos) = listen_results.iter().position(|r| matches!(r, OpResult::Downlink(m) if m == n)) {
+                            listen_results.remove(pos);
+                            Reaction::Accepted(*n)
+                        } else if let Some(pos) = listen_results.iter().position(|r| *r == OpResult::SessionExpired) {
+                            listen_results.remove(pos);
+                            Reaction::Expired
+                        } else {
+                            Reaction::Rejected
+                        }
+                    }
+                    _ => Reaction::Unknown,
+                }
+            }
+            _ => Reaction::Unknown,
+        };
+        out.push(r);
+    }
+    out
+}
